@@ -1,16 +1,17 @@
 /-
-F210 — Shift + a letter key whose shifted character is NOT `unicode.ToUpper` of the key (Turkish
+F210 (FIXED in /repo: the Shift-text work-around uses the reported shifted code when the report carries a
+printable one) — Shift + a letter key whose shifted character is NOT `unicode.ToUpper` of the key (Turkish
 layout: the key 'i' produces 'İ' U+0130; also 'k' → Kelvin sign U+212A, 'ß' → 'ẞ' U+1E9E: each is
 `IsUpper` with `ToLower` = the key, but `ToUpper(key)` is another rune):
 
 * legacy report: the character 'İ' → `Key{Keycode: 'i', ShiftedCode: 'İ', Modifiers: Shift, Text: "İ"}`;
-* kitty report with the shifted code and without the text field, `CSI 105:304;2 u` →
-  `Key{Keycode: 'i', ShiftedCode: 'İ', Modifiers: Shift, Text: "I"}`: the Shift-text work-around at the
-  end of `decodeKey` invents the text from `ToUpper(Keycode)` although the report says which
-  character Shift produces.
+* kitty report with the shifted code and without the text field, `CSI 105:304;2 u`: before the fix
+  `Text: "I"` (invented from `ToUpper(Keycode)` although the report says which character Shift produces),
+  now `Text: "İ"`.
 
-Binding ('İ', Shift) matches the legacy event only, binding ('I', Shift) the kitty event only; the
-events' `Text` differ ("İ" vs "I").  `cross_protocol_char_shift` is false without `htoup`.
+Before the fix binding ('İ', Shift) matched the legacy event only and binding ('I', Shift) the kitty event
+only.  This file now proves the regression statements on the model of the fixed code and that
+`cross_protocol_char_shift` holds without any hypothesis relating `ToUpper c` to `C`.
 -/
 import VaxisModel.Props.C09Uni
 
@@ -28,13 +29,13 @@ def turkUni : Uni where
   toLower r := if r = 304 then 105 else asciiUni.toLower r
   foldEq a b := asciiUni.foldEq a b
 
-/-- `cross_protocol_char_shift` without the hypothesis `htoup`. -/
+/-- `cross_protocol_char_shift` without the former hypothesis `ToUpper c = C`. -/
 def cross_protocol_char_shift_full : Prop :=
   ∀ (u : Uni) (c C : Int) (f : Form),
     validRune c = true → validRune C = true → c ≠ 127 → u.isUpper C = true → u.toLower C = c →
     lookup2 (c, 117) functional = none →
     (f.withShifted = true ∧ f.withBase = false ∧ f.hasMods = true) →
-    (f.withText = false → u.isPrint c = true) →
+    (f.withText = false → u.isPrint c = true) → (f.withText = false → u.isPrint C = true) →
     keyString u (decodeKey u (.print [C])) =
       keyString u (decodeKey u (kittySeq c 117 { key := c, mods := shiftBit, shifted := C, text := [C] } f)) ∧
     ∀ b m, «matches» u (decodeKey u (.print [C])) b m =
@@ -42,21 +43,22 @@ def cross_protocol_char_shift_full : Prop :=
 
 def kittyForm : Form := { withShifted := true, withMods := true }
 
-theorem dotted_I_text_differs :
+/-- Both reports now carry the text 'İ' (before the fix: [304] vs [73]). -/
+theorem dotted_I_text_same :
     (decodeKey turkUni (.print [304])).text = [304] ∧
-    (decodeKey turkUni (kittySeq 105 117 { key := 105, mods := shiftBit, shifted := 304, text := [304] } kittyForm)).text = [73] := by
+    (decodeKey turkUni (kittySeq 105 117 { key := 105, mods := shiftBit, shifted := 304, text := [304] } kittyForm)).text = [304] := by
   decide
 
-theorem dotted_I_differs :
+/-- Binding ('İ', Shift) matches both, binding ('I', Shift) neither. -/
+theorem dotted_I_same :
     «matches» turkUni (decodeKey turkUni (.print [304])) 304 shiftBit = true ∧
-    «matches» turkUni (decodeKey turkUni (kittySeq 105 117 { key := 105, mods := shiftBit, shifted := 304, text := [304] } kittyForm)) 304 shiftBit = false := by
+    «matches» turkUni (decodeKey turkUni (kittySeq 105 117 { key := 105, mods := shiftBit, shifted := 304, text := [304] } kittyForm)) 304 shiftBit = true ∧
+    «matches» turkUni (decodeKey turkUni (.print [304])) 73 shiftBit = false ∧
+    «matches» turkUni (decodeKey turkUni (kittySeq 105 117 { key := 105, mods := shiftBit, shifted := 304, text := [304] } kittyForm)) 73 shiftBit = false := by
   decide
 
-theorem cross_protocol_char_shift_full_fails : ¬ cross_protocol_char_shift_full := by
-  intro h
-  have h2 := (h turkUni 105 304 kittyForm (by decide) (by decide) (by decide) (by decide) (by decide) (by decide +kernel)
-    ⟨rfl, rfl, rfl⟩ (fun _ => by decide)).2 304 shiftBit
-  rw [dotted_I_differs.1, dotted_I_differs.2] at h2
-  cases h2
+theorem cross_protocol_char_shift_full_holds : cross_protocol_char_shift_full :=
+  fun u c C f hv hV hdel hup hlow hfun hf hp hpC =>
+    VaxisModel.Props.C09Uni.cross_protocol_char_shift u c C f hv hV hdel hup hlow hfun hf hp hpC
 
 end VaxisModel.Witness.F210
